@@ -79,9 +79,27 @@ pub fn exp(a: &T) -> T {
 pub fn recip(a: &T) -> T {
     map(a, |x| x.unary(1.0 / x.v, -1.0 / (x.v * x.v), 2.0 / (x.v * x.v * x.v)))
 }
+thread_local! {
+    /// number of relu inputs seen so far whose sign is within rounding noise (|v| <= 1e-9 * magnitude of its terms)
+    static KINKS: std::cell::Cell<u64> = std::cell::Cell::new(0);
+}
+/// A relu input that is zero only up to rounding makes the derivative undecidable between two correct
+/// implementations; callers discard such cases unless all data is exact.
+pub fn kink_count() -> u64 {
+    KINKS.with(|k| k.get())
+}
 /// max(0, x); derivative 1 for x > 0 and 0 otherwise (corgi's documented convention at 0)
 pub fn relu(a: &T) -> T {
-    map(a, |x| if x.v > 0.0 { x.unary(x.v, 1.0, 0.0) } else { x.unary(0.0, 0.0, 0.0) })
+    map(a, |x| {
+        if x.vm > 0.0 && x.v.abs() <= 1e-9 * x.vm {
+            KINKS.with(|k| k.set(k.get() + 1));
+        }
+        if x.v > 0.0 {
+            x.unary(x.v, 1.0, 0.0)
+        } else {
+            x.unary(0.0, 0.0, 0.0)
+        }
+    })
 }
 pub fn sigmoid(a: &T) -> T {
     map(a, |x| {
